@@ -9,6 +9,7 @@ use vcore::report::{Args, Report};
 #[macro_use]
 pub mod subj;
 pub mod c01;
+pub mod c02;
 pub mod c03;
 pub mod c04;
 pub mod c06;
@@ -52,6 +53,7 @@ fn main() {
             let replay = !a2.replay.is_empty();
             match a2.check.as_str() {
                 "c01" => if replay { c01::replay(&a2, &mut rep) } else { c01::run(&a2, &mut rep) },
+                "c02" => if replay { c02::replay(&a2, &mut rep) } else { c02::run(&a2, &mut rep) },
                 "c03" => if replay { c03::replay(&a2, &mut rep) } else { c03::run(&a2, &mut rep) },
                 "c04" => if replay { c04::replay(&a2, &mut rep) } else { c04::run(&a2, &mut rep) },
                 "c06" => if replay { c06::replay(&a2, &mut rep, true) } else { c06::run(&a2, &mut rep, true) },
